@@ -12,7 +12,8 @@ tvars == <<fvars, l, pset, pcount, bad>>
 TInit == FInit /\ l = 1 /\ pset = {} /\ pcount = 0 /\ bad = {}
 
 ChunkProj == [i \in DOMAIN chunks |-> <<chunks[i].r, chunks[i].w, chunks[i].cap>>]
-Fail(e, why) == bad' = bad \cup {<<why, e.ep, l>>}
+\* a queue that hands out a wrong element, none, or one it does not hold has lost or duplicated a job (C01) and broken the order (C04)
+Fail(e, why) == bad' = bad \cup {<<why, e.ep, l>>} \cup (IF why \in {"C04_FifoOrder", "C04_PrioOrder", "C04_DequeueFromEmpty", "C04_Values"} THEN {<<"C01_QueueKeepsAll", e.ep, l>>} ELSE {})
 
 Step(e) ==
   CASE e.op = "reset" ->
